@@ -216,6 +216,15 @@ def run(tier, seed, factor=1):
     for c in speccheck.make_configs(rnd2, common.scale(tier, 150, 2000) * factor):
         c = dict(c, db="RuleDBForest", iterative=False, smallest=False)
         cfgs.append(c)
+    # symmetric pattern sets with the letter-exchange symmetry in the pack: classes that are only reached as symmetric images
+    # (their rules are reverses of symmetry rules)
+    for _ in range(common.scale(tier, 30, 300) * factor):
+        c = specrun.rand_config(rnd2, None)
+        half = specrun.upword.rand_patterns(rnd2, "ab", 3, 2)
+        t = str.maketrans("ab", "ba")
+        c.update(alpha="ab", patterns=sorted(set(half) | {p.translate(t) for p in half}), symmetry=True, db="RuleDBForest", iterative=False,
+                 smallest=False, reverse=True, params=[], mode="", factory=None, prefver=None, inferral=rnd2.random() < 0.3)
+        cfgs.append(c)
     souts = specrun.pool_map(search_worker, cfgs)
     specrun.quiet()
     lines = [o["line"] for o in souts if "line" in o]
